@@ -118,10 +118,25 @@ def gen_rts(seed, shard, n):
         h0 = rng.choice([-0.5667, -0.8333, 0.125])
         dt = rng.choice([56.0, 69.0, 0.0, 1570.0, 10580.0, 17190.0, rng.uniform(0.0, 17190.0)])        # present-day and historical Delta-T (year -500: 17190 s)
         th0 = rng.uniform(0, 360)
-        A = [Angle(a2 + ra_rate * k) for k in (-1, 0, 1)]
-        D = [Angle(max(-89.9, min(89.9, d2 + dec_rate * k))) for k in (-1, 0, 1)]
+        # a curved track now and then (the three tabular positions define a parabola); among them a body at a stationary
+        # point, whose positions of the previous and of the following day coincide
+        ca = cdc = 0.0
+        cv = rng.random()
+        if cv < 0.1:
+            ra_rate, dec_rate, ca, cdc = 0.0, 0.0, rng.uniform(-0.6, 0.6), rng.uniform(-0.4, 0.4)
+        elif cv < 0.25:
+            ca, cdc = rng.uniform(-0.3, 0.3), rng.uniform(-0.2, 0.2)
+        if cv > 0.9 and ra_rate != 0.985647:
+            # a body that transits (to rounding) exactly at its first-approximation time: the correction of the transit time
+            # vanishes in the first pass while those of rising and setting do not
+            m0 = ra_rate * (dt / 86400.0) / (0.985647 - ra_rate)
+            if 0.0 <= m0 < 1.0:
+                th0 = (a2 + lonw - 360.0 * m0) % 360.0
+        A = [Angle(a2 + ra_rate * k + ca * k * k) for k in (-1, 0, 1)]
+        D = [Angle(max(-89.9, min(89.9, d2 + dec_rate * k + cdc * k * k))) for k in (-1, 0, 1)]
         d2v, d1v, d3v = float(D[1]), float(D[0]), float(D[2])
         rd = (d3v - d1v) / 2.0
+        cdv = (d3v + d1v - 2.0 * d2v) / 2.0
         ev = {"k": "rts", "lat": lat, "lonw": lonw, "a2": a2, "d2": d2v, "rar": ra_rate, "h0": h0,
               "ra_wrap": 1 if (min(float(x.to_positive()) for x in [Angle(a2 - ra_rate), Angle(a2), Angle(a2 + ra_rate)]) < 3.0
                                or max(float(Angle(v).to_positive()) for v in (a2 - ra_rate, a2, a2 + ra_rate)) > 357.0) else 0}
@@ -148,8 +163,8 @@ def gen_rts(seed, shard, n):
 
         def at(hours):
             nn = hours / 24.0 + dt / 86400.0
-            alpha = a2 + ra_rate * nn
-            delta = d2v + rd * nn
+            alpha = a2 + ra_rate * nn + ca * nn * nn
+            delta = d2v + rd * nn + cdv * nn * nn
             theta = th0 + 360.985647 * (hours / 24.0)
             return _w180(theta - lonw - alpha), delta
         Hr, Dr = at(mr)
